@@ -637,7 +637,7 @@ func (x *exec) resolveCalleeName(pkgPath, s string) string {
 		return k
 	}
 	switch s {
-	case "chan.recv", "chan.send", "chan.select":
+	case "chan.recv", "chan.send", "chan.select", "chan.close":
 		// channel operations of the unit, recorded as quiet events
 		return "chan:" + s[5:]
 	}
@@ -843,6 +843,43 @@ func (env *Env) lockOf(e spec.Expr) smt.Term {
 	return env.x.lockState(env.st, &np)
 }
 
+
+// lvalPtr resolves a field selector chain (c.isDone.v, s.mu) to the location it designates: the innermost pointer-typed
+// prefix is evaluated, the remaining selectors extend the field path.
+func (env *Env) lvalPtr(m *spec.Sel) *Ptr {
+	en := env.x.e
+	var baseP *Ptr
+	var baseT types.Type
+	if inner, ok := m.X.(*spec.Sel); ok && !strings.HasPrefix(inner.Name, "$") {
+		// try the prefix as a value first: if it is a pointer, it is the base object
+		bv := env.eval(m.X)
+		if _, isPtr := types.Unalias(bv.T).Underlying().(*types.Pointer); isPtr {
+			baseP, baseT = env.x.ptrOf(bv), bv.T
+		} else {
+			baseP = env.lvalPtr(inner)
+			_, baseT = en.followPath(baseP.Root, baseP.Path)
+		}
+	} else {
+		bv := env.eval(m.X)
+		if _, isPtr := types.Unalias(bv.T).Underlying().(*types.Pointer); !isPtr {
+			specErr("modifies %s: base is not a pointer", exprString(m))
+		}
+		baseP, baseT = env.x.ptrOf(bv), bv.T
+	}
+	obj, index, _ := types.LookupFieldOrMethod(baseT, true, nil, m.Name)
+	if obj == nil {
+		if n := namedOf(baseT); n != nil && n.Obj().Pkg() != nil {
+			obj, index, _ = types.LookupFieldOrMethod(baseT, true, n.Obj().Pkg(), m.Name)
+		}
+	}
+	if obj == nil || len(index) != 1 {
+		specErr("modifies %s: no direct field %s in %v", exprString(m), m.Name, baseT)
+	}
+	np := *baseP
+	np.Path = append(append([]int(nil), baseP.Path...), index[0])
+	return &np
+}
+
 // havocLocation forgets the location(s) designated by a modifies expression (evaluated in env's state) in st.
 func (env *Env) havocLocation(st *State, m spec.Expr) {
 	en := env.x.e
@@ -876,22 +913,8 @@ func (env *Env) havocLocation(st *State, m spec.Expr) {
 			en.setHeapArr(st, key, smt.Store(arr, idx, en.ctx.Fresh("hv"+m.Name, sort)))
 			return
 		}
-		pt, ok := types.Unalias(base.T).Underlying().(*types.Pointer)
-		if !ok {
-			specErr("modifies %s: base is not a pointer", exprString(m))
-		}
-		obj, index, _ := types.LookupFieldOrMethod(base.T, true, nil, m.Name)
-		if obj == nil {
-			if n := namedOf(base.T); n != nil && n.Obj().Pkg() != nil {
-				obj, index, _ = types.LookupFieldOrMethod(base.T, true, n.Obj().Pkg(), m.Name)
-			}
-		}
-		if obj == nil || len(index) != 1 {
-			specErr("modifies %s: no direct field %s in %v", exprString(m), m.Name, pt.Elem())
-		}
-		p := env.x.ptrOf(base)
-		np := *p
-		np.Path = append(append([]int(nil), p.Path...), index[0])
+		_ = base
+		np := *env.lvalPtr(m)
 		_, ft := en.followPath(np.Root, np.Path)
 		nv := en.fresh("hv_"+m.Name, ft)
 		en.assumeValid(st, nv)
